@@ -490,6 +490,8 @@ LETTERS = "abcdefghijklmnopqrstuvwxyzABCDEFGHIJKLMNOPQRSTUVWXYZ"
 UNI_WORD = "éßжñΩ名ü٣"          # L* / Nd: word characters
 UNI_OTHER = "€–\u00a0→“°"        # Sc Pd Zs Sm Pi So: not word characters
 PUNCT = "-:@.#/"
+SPECIAL_WORDS = ["...", "..", ".", "....", "...a", "a...", "-", "--", "/", "//", "@", "#", "_", "__", "-1", "1.5", "0",
+                 "a:b", ":a", "a:", "::", "True", "None", "only", "name", "a/b", "/a", "a/", "@click.native", "#id"]
 DJANGO_WORDS = None
 
 
@@ -499,6 +501,8 @@ def _w_of(*texts: str) -> List[str]:
 
 def rnd_name(rnd: random.Random, valid: Optional[bool] = None, maxlen: int = 12) -> str:
     """A random name; valid=True: only tag characters, valid=False: at least one other character."""
+    if valid and rnd.random() < 0.08:
+        return rnd.choice(SPECIAL_WORDS)          # valid tag words that look like argument syntax
     n = rnd.randint(1, maxlen)
     good = LETTERS + "0123456789_" + UNI_WORD + PUNCT
     badc = " \n\t\"'=|,+*()<>!?&;~^$" + UNI_OTHER
@@ -724,6 +728,16 @@ def validate_traces(chk: Check, n_parse: int, n_tags: int, n_reg: int, n_e2e: in
         recs.append(gen_tags(rnd, len(recs) + 1, "tags"))
     for _ in range(n_reg):
         recs.append(gen_tags(rnd, len(recs) + 1, "register"))
+    # every syntax-looking tag word once through the shorthand formatter, block and self-closing
+    short = {"kind": "short", "tag": [], "sp": [], "ss": [], "ep": [], "es": []}
+    for word in SPECIAL_WORDS:
+        if not _usable_word(word):
+            continue
+        for close in ("self", "block"):
+            toks = ["7", "k=\"v w\""] + (["/"] if close == "self" else [])
+            recs.append({"id": len(recs) + 1, "op": "e2e", "fmt": short, "reg": [C(word)],
+                         "use": {"word": C(word), "toks": [C(t) for t in toks], "close": close,
+                                 "endw": C("end" + word) if close == "block" else []}, "w": []})
     made = 0
     while made < n_e2e:
         r = gen_e2e(rnd, len(recs) + 1)
